@@ -70,13 +70,13 @@ Definition field_is (c : complex) (i : nat) (proj : hedgeR -> nat) (v : nat) : b
   match get_e c i with Some e => Nat.eqb (proj e) v | None => false end.
 
 (* twin is an involution without fixed point, swaps the end points, and both half edges of an edge
-   carry the same edge labels (dcel_input.go sets fwd and rev together; populateInSetLabels is symmetric) *)
+   carry the same source-edge flags (dcel_input.go sets fwd and rev together) *)
 Definition twin_ok (c : complex) : bool :=
   forallb (fun ie =>
     let i := fst ie in let e := snd ie in
     negb (Nat.eqb (e_twin e) i) && field_is c (e_twin e) e_twin i
     && match get_e c (e_twin e) with
-       | Some t => lab_eqb (e_in t) (e_in e) && lab_eqb (e_srcEdge t) (e_srcEdge e)
+       | Some t => lab_eqb (e_srcEdge t) (e_srcEdge e)
                    (* the twin starts where the next half edge starts *)
                    && field_is c (e_next e) e_origin (e_origin t)
        | None => false
@@ -122,31 +122,49 @@ Definition faces_ok (c : complex) : bool :=
 Definition euler_ok (c : complex) : bool :=
   Nat.eqb (nE c) 0 || (Nat.even (nE c) && Nat.eqb (2 * (nV c + nF c)) (nE c + 4)).
 
-(* dcel_fixup.go: assignFaces (a face with a source edge of an operand on its cycle is in that
-   operand's set) and populateInSetLabels (edge = source edge or either side in the set; vertex =
-   source vertex or an incident edge in the set) *)
+(* dcel_fixup.go: assignFaces and populateInSetLabels, as bounds rather than as one particular
+   population rule (so that a rewrite of the rule that labels the same cells is not an alarm):
+   lower bounds (label closure):  source face flag <= source edge flag;  source face flag <= label of
+     the incident face;  source edge flag <= edge label;  label of the incident face <= edge label;
+     edge label <= label of both end vertices;  source vertex flag <= vertex label;
+   upper bounds (no label from nowhere):  edge label <= source edge flag, or a face on either side;
+     vertex label <= source vertex flag, or an edge starting or ending at the vertex. *)
 Definition lab_or (a b : lab) : lab := (fst a || fst b, snd a || snd b).
 Definition lab_le (a b : lab) : bool := (negb (fst a) || fst b) && (negb (snd a) || snd b).
+Definition vert_in (c : complex) (i : nat) : option lab :=
+  match get_v c i with Some v => Some (v_in v) | None => None end.
+Definition le_opt (a : lab) (b : option lab) : bool := match b with Some l => lab_le a l | None => false end.
+Definition twin_origin (c : complex) (e : hedgeR) : option nat :=
+  match get_e c (e_twin e) with Some t => Some (e_origin t) | None => None end.
+Definition touches (c : complex) (i : nat) (e : hedgeR) : bool :=
+  Nat.eqb (e_origin e) i || match twin_origin c e with Some j => Nat.eqb j i | None => false end.
 Definition labels_ok (c : complex) : bool :=
   forallb (fun e =>
     lab_le (e_srcFace e) (e_srcEdge e)
     && lab_le (e_srcFace e) (face_in c (e_face e))
-    && lab_eqb (e_in e) (lab_or (e_srcEdge e) (lab_or (face_in c (e_face e)) (twin_face_in c e)))) (c_edges c)
+    && lab_le (e_srcEdge e) (e_in e)
+    && lab_le (face_in c (e_face e)) (e_in e)
+    && le_opt (e_in e) (vert_in c (e_origin e))
+    && le_opt (e_in e) (match twin_origin c e with Some j => vert_in c j | None => None end)
+    && lab_le (e_in e) (lab_or (e_srcEdge e) (lab_or (face_in c (e_face e)) (twin_face_in c e)))) (c_edges c)
   && forallb (fun iv =>
     let i := fst iv in let v := snd iv in
-    lab_eqb (v_in v)
-      (fold_right (fun e acc => if Nat.eqb (e_origin e) i then lab_or (e_in e) acc else acc) (v_src v) (c_edges c)))
+    lab_le (v_src v) (v_in v)
+    && lab_le (v_in v)
+         (fold_right (fun e acc => if touches c i e then lab_or (e_in e) acc else acc) (v_src v) (c_edges c)))
     (verts_ix c).
 
 Definition dcel_ok (c : complex) : bool :=
   ranges_ok c && twin_ok c && next_prev_ok c && faces_ok c && euler_ok c && labels_ok c.
 
-(* label closure (the consequence of the label rule that the extraction relies on): a face in an
-   operand's set forces the edges on both of its sides into the set, an edge in the set forces its
+(* label closure, the part of [labels_ok] that the extraction relies on: a face in an operand's set
+   forces the half edges of its boundary cycle into the set, an edge in the set forces both of its
    end points into the set *)
 Definition label_closed (c : complex) : Prop :=
-  (forall e, In e (c_edges c) -> lab_le (face_in c (e_face e)) (e_in e) = true /\ lab_le (twin_face_in c e) (e_in e) = true) /\
-  (forall e v, In e (c_edges c) -> get_v c (e_origin e) = Some v -> lab_le (e_in e) (v_in v) = true).
+  (forall e, In e (c_edges c) -> lab_le (face_in c (e_face e)) (e_in e) = true) /\
+  (forall e v, In e (c_edges c) -> get_v c (e_origin e) = Some v -> lab_le (e_in e) (v_in v) = true) /\
+  (forall e t w, In e (c_edges c) -> get_e c (e_twin e) = Some t -> get_v c (e_origin t) = Some w ->
+                 lab_le (e_in e) (v_in w) = true).
 
 (* ================================================================ selection ================== *)
 (* extractPolygons: the faces whose label passes the operation *)
@@ -160,12 +178,14 @@ Definition adj_sel (o : setop) (c : complex) (e : hedgeR) : bool :=
 Definition sel_line (o : setop) (c : complex) (e : hedgeR) : bool :=
   negb (adj_sel o c e) && inc o (e_in e)
   && negb (sel_face o c (e_face e)) && negb (sel_twin_face o c e).
-(* vertex marks: origin of every half edge on a selected face's cycle; both ends of an extracted line *)
 Definition twin_sel_line (o : setop) (c : complex) (e : hedgeR) : bool :=
   match get_e c (e_twin e) with Some t => sel_line o c t | None => false end.
+(* extractLineStrings visits every half edge: the edge is extracted when either half edge passes *)
+Definition line_extracted (o : setop) (c : complex) (e : hedgeR) : bool := sel_line o c e || twin_sel_line o c e.
+(* vertex marks: origin of every half edge on a selected face's cycle; both ends of an extracted line *)
 Definition v_covered (o : setop) (c : complex) (v : nat) : bool :=
   existsb (fun e => Nat.eqb (e_origin e) v
-                    && (sel_face o c (e_face e) || sel_line o c e || twin_sel_line o c e)) (c_edges c).
+                    && (sel_face o c (e_face e) || line_extracted o c e)) (c_edges c).
 (* extractPoints *)
 Definition sel_point (o : setop) (c : complex) (iv : nat * vertexR) : bool :=
   inc o (v_in (snd iv)) && negb (v_covered o c (fst iv)).
@@ -178,12 +198,15 @@ Definition boundary_edges (o : setop) (c : complex) : list nat :=
   map fst (filter (fun ie => sel_face o c (e_face (snd ie)) && negb (sel_twin_face o c (snd ie))) (edges_ix c)).
 (* one half edge per extracted line *)
 Definition lines_selected (o : setop) (c : complex) : list nat :=
-  map fst (filter (fun ie => sel_line o c (snd ie) && Nat.ltb (fst ie) (e_twin (snd ie))) (edges_ix c)).
+  map fst (filter (fun ie => line_extracted o c (snd ie) && Nat.ltb (fst ie) (e_twin (snd ie))) (edges_ix c)).
 Definition points_selected (o : setop) (c : complex) : list nat :=
   map fst (filter (sel_point o c) (verts_ix c)).
 
 (* the cells of the result's point set *)
-Definition res_edge (o : setop) (c : complex) (e : hedgeR) : bool := adj_sel o c e || sel_line o c e.
+Definition res_edge (o : setop) (c : complex) (e : hedgeR) : bool := adj_sel o c e || line_extracted o c e.
+(* the label of either half edge of the edge passes the operation *)
+Definition edge_inc (o : setop) (c : complex) (e : hedgeR) : bool :=
+  inc o (e_in e) || match get_e c (e_twin e) with Some t => inc o (e_in t) | None => false end.
 Definition res_vertex (o : setop) (c : complex) (iv : nat * vertexR) : bool :=
   v_covered o c (fst iv) || sel_point o c iv.
 
